@@ -303,7 +303,7 @@ Definition h_op_meta (w : hworld) (ti n : nat) (o : metaop) : res * hworld :=
   end.
 
 (* ---- the heap machine on the covered operations ---- *)
-Definition covered_heap (o : op) : bool :=
+Definition modelled_heap (o : op) : bool :=
   match o with
   | OAdd _ _ _ _ _ _ => true
   | ORemove _ _ _ _ => true
